@@ -80,6 +80,12 @@ add("C15", "jaxpr2smt",
     "underlying distribution = arbitrary function of its seed; ndtri uninterpreted (strictly increasing axiom); sample shapes 1 and 3",
     "DESIGN.md §6 C15")
 
+add("C03", "pysym+jaxpr2smt",
+    "bounded symbolic execution of the unmodified connection/node handlers of rex.asynchronous on z3-backed proxy numbers (1 us grid normal form, solver-checked branch feasibility, DFS over decision prefixes); per path the one-step inductive obligations are discharged by z3; InputState.push via the jaxpr interpreter; counterexamples replayed on the unpatched handlers with python floats",
+    "From every state satisfying the stated representation invariant (queue lengths <= 3(4), all blocking x skip x jitter policies, 6(12) rate pairs) each handler re-establishes the invariant and: receive times are FIFO and causal up to the 1 us rounding grid; messages are paired with their delays in order; non-blocking selection takes exactly the arrived prefix (LATEST/BUFFER, skip ties) and never before a strictly later arrival is known; blocking steps take adjacent disjoint runs of sender ticks; ts_max/selection pop exactly what was announced, seq_in = connection tick; ticks gap-free. Exact causality fails by <= 0.5 us: known finding K1.",
+    "simulated clock only; INV as listed in the evidence; floats as reals with round-half-up on the 1 us grid; phases on the grid; composition of the one-step lemmas into whole-episode statements is an induction argument (DESIGN.md), not a solver result",
+    "DESIGN.md §6 C03")
+
 def main():
     checks = []
     for pid in sorted(CHECKS):
